@@ -12,7 +12,7 @@ def unit_for(tt, pol):
     return Unit("C12", "itv_%s_%s" % (tt, pol), "units/C12/interval.cc", defs={"VB": cxx, "VPOL": POLS[pol], "T_W": w, "T_SIGNED": sg},
                 roots=ROOTS, stubs=["common.c"], type_aliases={"ITV_T": ("w_add", 0)})
 
-GHOST = "ex_t G_an, G_bn; int G_as, G_bs;"
+GHOST = "ex_t G_an, G_bn; int G_as, G_bs; ITV_T G_to0;"
 SIGN_CASES = {"pos": "(!lo_inf(%s) && lo(%s) >= 0)", "neg": "(!hi_inf(%s) && hi(%s) <= 0)",
               "mix": "((lo_inf(%s) || lo(%s) < 0) && (hi_inf(%s) || hi(%s) > 0))"}
 def sign_case(v, c): return SIGN_CASES[c].replace("%s", v)
@@ -33,9 +33,43 @@ def itv_task(u, tt, pol, op, nargs, ghost_range=None, timeout=1800, bounded=None
         pre_h += "\n  __CPROVER_assume(%s && %s);" % (sign_case("(&x)", case[0]), sign_case("(&y)", case[1]))
     return Task("%s/%s/%s%s" % (tt, pol, op, ("/" + case[0] + "-" + case[1]) if case else ""), u, "FN_" + op, ["C12/interval.h"], vars, "uint32_t r = FN_%s(%s)" % (op, args),
                 defs={"GHOST_RANGE": "((ex_t)%d)" % gr}, native=native, harness_pre=pre_h, timeout=timeout, bounded=bounded,
-                stubs=[], group="%s %s" % (tt, pol), harness_post="", reach=[("x and y nonempty", "!is_empty_set(&x)"), ("ghost point inside", "GHOST_OK && mem(&x, GA)")])
+                stubs=["c12_ghost.c"], group="%s %s" % (tt, pol), harness_post="", reach=[("x and y nonempty", "!is_empty_set(&x)"), ("ghost point inside", "GHOST_OK && mem(&x, GA)")])
 
-OPS = [("neg", 1), ("add", 2), ("sub", 2), ("mul", 2), ("div", 2)]
+OPS = [("neg", 1), ("add", 2), ("sub", 2), ("mul", 2), ("div", 2), ("assign", 1), ("join2", 2), ("intersect2", 2), ("difference2", 2)]
+SELF_OPS = ["join", "intersect", "difference"]
+REL_OPS = ["refine_existential", "refine_universal"]
+PREDS = [("is_empty", 1), ("contains", 2), ("strictly_contains", 2), ("is_disjoint_from", 2), ("equal", 2)]
+
+def ghost_vars(w):
+    gt = "int32_t" if w == 8 else "int64_t"
+    return [Var(gt, "an"), Var(gt, "bn"), Var("int8_t", "as"), Var("int8_t", "bs")], "  G_an = an; G_bn = bn; G_as = as; G_bs = bs;"
+
+def self_task(u, tt, pol, op, rel=False):
+    """receiver is also an operand: to.op(x) / to.op(rel, x)"""
+    w = u.defs["T_W"]; gv, pre_h = ghost_vars(w)
+    vars = [Var("ITV_T", "to", snapshot=True), Var("ITV_T", "x", snapshot=True)] + ([Var("uint32_t", "rel")] if rel else []) + gv
+    args = "&to, rel, &x" if rel else "&to, &x"
+    proto = "ITV_T*, uint32_t, const ITV_T*" if rel else "ITV_T*, const ITV_T*"
+    post = ("C_%s_POSTS(r, (&to), (&to_old), rel, (&x_old))" if rel else "C_%s_POSTS(r, (&to), (&to_old), (&x_old))") % op
+    pre_c = pre_h + "\n  G_to0 = to;"
+    native = {"decl": XSTR + GHOST + "\nextern uint32_t real_fn(%s) __asm__(XSTR(FN_%s));" % (proto, op),
+              "pre": pre_h + "\n  PRE(wf_to, real_OK(&to)) PRE(wf_x, real_OK(&x))" + (" PRE(rel, rel_valid(rel))" if rel else ""),
+              "call": "uint32_t r = real_fn(%s)" % args, "post": post, "show": 'printf("  I_Result r=0x%x\\n", r);'}
+    return Task("%s/%s/%s" % (tt, pol, op), u, "FN_" + op, ["C12/interval.h"], vars, "uint32_t r = FN_%s(%s)" % (op, args),
+                defs={"GHOST_RANGE": "((ex_t)%d)" % (1 << (w + 1))}, native=native, harness_pre=pre_c, timeout=1800,
+                group="%s %s" % (tt, pol), reach=[("receiver nonempty", "!is_empty_set(&G_to0)"), ("ghost point inside", "GHOST_OK && mem(&G_to0, GA)")],
+                stubs=["c12_ghost.c"])
+
+def pred_task(u, tt, pol, op, nargs):
+    vars = [Var("ITV_T", "x"), Var("ITV_T", "y")] if nargs == 2 else [Var("ITV_T", "x")]
+    args = "&x, &y" if nargs == 2 else "&x"; proto = "const ITV_T*, const ITV_T*" if nargs == 2 else "const ITV_T*"
+    post = "C_%s_POSTS(r, (&x), (&%s))" % (op, "y" if nargs == 2 else "x")
+    native = {"decl": XSTR + GHOST + "\nextern bool real_fn(%s) __asm__(XSTR(FN_%s));" % (proto, op),
+              "pre": "  PRE(wf_x, real_OK(&x))" + (" PRE(wf_y, real_OK(&y))" if nargs == 2 else ""),
+              "call": "bool r = real_fn(%s)" % args, "post": post, "show": 'printf("  answer r=%d\\n", (int)r);'}
+    return Task("%s/%s/%s" % (tt, pol, op), u, "FN_" + op, ["C12/interval.h"], vars, "_Bool r = FN_%s(%s)" % (op, args),
+                defs={"GHOST_RANGE": "((ex_t)%d)" % (1 << (u.defs["T_W"] + 1))}, native=native, timeout=900,
+                group="%s %s" % (tt, pol), reach=[("answer true", "r"), ("answer false", "!r")], stubs=["c12_ghost.c"])
 
 def build(tier):
     units = []; tasks = []
@@ -50,6 +84,9 @@ def build(tier):
                     for cy in ("pos", "neg", "mix"):
                         tasks.append(itv_task(u, tt, pol, op, n, case=(cx, cy)))
             else: tasks.append(itv_task(u, tt, pol, op, n))
+        for op in SELF_OPS: tasks.append(self_task(u, tt, pol, op))
+        for op in REL_OPS: tasks.append(self_task(u, tt, pol, op, rel=True))
+        for (op, n) in PREDS: tasks.append(pred_task(u, tt, pol, op, n))
     return units, tasks
 
 def main(tier, only=None):
